@@ -703,12 +703,12 @@ func (obj *SparseIntMatrix) ITERATOR_FROM(i, j int) *SparseIntMatrixIterator {
   return &r
 }
 func (obj *SparseIntMatrix) JOINT_ITERATOR(b ConstMatrix) *SparseIntMatrixJointIterator {
-  r := SparseIntMatrixJointIterator{obj.ITERATOR(), b.ConstIterator(), -1, -1, Int{}, nil}
+  r := SparseIntMatrixJointIterator{obj.ITERATOR(), b.ConstIterator(), -1, -1, Int{}, nil, false}
   r.Next()
   return &r
 }
 func (obj *SparseIntMatrix) JOINT3_ITERATOR(b, c ConstMatrix) *SparseIntMatrixJoint3Iterator {
-  r := SparseIntMatrixJoint3Iterator{obj.ITERATOR(), b.ConstIterator(), c.ConstIterator(), -1, -1, Int{}, nil, nil}
+  r := SparseIntMatrixJoint3Iterator{obj.ITERATOR(), b.ConstIterator(), c.ConstIterator(), -1, -1, Int{}, nil, nil, false}
   r.Next()
   return &r
 }
@@ -738,13 +738,13 @@ type SparseIntMatrixJointIterator struct {
   i, j int
   s1 Int
   s2 ConstScalar
+  ok bool
 }
 func (obj *SparseIntMatrixJointIterator) Index() (int, int) {
   return obj.i, obj.j
 }
 func (obj *SparseIntMatrixJointIterator) Ok() bool {
-  return !(obj.s1.ptr == nil || obj.s1.GetInt() == int(0)) ||
-         !(obj.s2 == nil || obj.s2.GetInt() == int(0))
+  return obj.ok
 }
 func (obj *SparseIntMatrixJointIterator) Next() {
   ok1 := obj.it1.Ok()
@@ -766,6 +766,9 @@ func (obj *SparseIntMatrixJointIterator) Next() {
       obj.s2 = obj.it2.GetConst()
     }
   }
+  // the iteration ends when no iterator delivered an element, elements
+  // with value zero must not terminate it
+  obj.ok = obj.s1.ptr != nil || obj.s2 != nil
   if obj.s1.ptr != nil {
     obj.it1.Next()
   }
@@ -800,6 +803,7 @@ func (obj *SparseIntMatrixJointIterator) Clone() *SparseIntMatrixJointIterator {
   r.j = obj.j
   r.s1 = obj.s1
   r.s2 = obj.s2
+  r.ok = obj.ok
   return &r
 }
 func (obj *SparseIntMatrixJointIterator) CloneJointIterator() MatrixJointIterator {
@@ -818,14 +822,13 @@ type SparseIntMatrixJoint3Iterator struct {
   s1 Int
   s2 ConstScalar
   s3 ConstScalar
+  ok bool
 }
 func (obj *SparseIntMatrixJoint3Iterator) Index() (int, int) {
   return obj.i, obj.j
 }
 func (obj *SparseIntMatrixJoint3Iterator) Ok() bool {
-  return !(obj.s1.ptr == nil || obj.s1.GetInt() == 0.0) ||
-         !(obj.s2 == nil || obj.s2.GetInt() == 0.0) ||
-         !(obj.s3 == nil || obj.s3.GetInt() == 0.0)
+  return obj.ok
 }
 func (obj *SparseIntMatrixJoint3Iterator) Next() {
   ok1 := obj.it1.Ok()
@@ -863,6 +866,9 @@ func (obj *SparseIntMatrixJoint3Iterator) Next() {
       obj.s3 = obj.it3.GetConst()
     }
   }
+  // the iteration ends when no iterator delivered an element, elements
+  // with value zero must not terminate it
+  obj.ok = obj.s1.ptr != nil || obj.s2 != nil || obj.s3 != nil
   if obj.s1.ptr != nil {
     obj.it1.Next()
   }
